@@ -26,12 +26,13 @@ func TestMain(m *testing.M) {
 	rec.Rule("cases = generated Go programs: a DAG of 1-6 interpreted functions (0-2 results, named or not; <= 9 frames per root call, nesting of deferred calls <= 2) whose bodies mix recording statements, " +
 		"defers of closures, of declared functions with arguments, of method values (value and pointer receiver), of the builtins close/delete/panic, defers inside loops (0-4 iterations, loop variable captured or passed), " +
 		"conditional and unconditional panics with int/string/error/struct/nil/computed values and run-time errors (division by zero, index, nil map, type assertion, nil pointer), " +
-		"recover called directly by the deferred function (closure, declared function, method), one call deeper, outside any deferred call, with the result tested; re-panic of the recovered value, new panic inside a deferred call, " +
+		"deferred calls that never enter interpreted code (methods of sync.Mutex, sync.WaitGroup, strings.Builder, bytes.Buffer on local and package-level variables, empty and trivial closures) in function bodies and inside deferred closures, " +
+		"recover called directly by the deferred function (closure, declared function, method), one call deeper, from plain helper functions at every position (function bodies, deferred closures, right after a callee returned), outside any deferred call, with the result tested; re-panic of the recovered value, new panic inside a deferred call, " +
 		"defer + panic inside a deferred call, named results modified by deferred closures, early returns; 1-4 root calls under a recovering wrapper (the caller continues) and, in a third of the programs, one bare root call whose panic may escape the entry function. " +
 		"Compared event by event: order of deferred calls, recovered values (run-time errors by class), results, escaping panic. " +
-		"A case is non-trivial when its executed trace shows (a) a panic raised inside a deferred call while an earlier panic has not been recovered, or (b) a recover executed one call deeper than the deferred function, or (c) a deferred call registered in a loop running >= 2 times; distinct = distinct program texts")
+		"A case is non-trivial when its executed trace shows (a) a panic raised inside a deferred call while an earlier panic has not been recovered, or (b) a recover executed one call deeper than the deferred function, or (c) a deferred call registered in a loop running >= 2 times, or (d) a recover from a plain helper in a function body executed while a panic is pending (the function was reached from a deferred call); distinct = distinct program texts")
 	rec.Assume("oracle: gc toolchain, generated module with `go 1.18` (GODEBUG panicnil=1 on both sides: recover() returns nil after panic(nil)), trace formatted by the same compiled recorder on both sides")
-	rec.Assume("only interpreted functions are deferred (deferring compiled functions that call recover is a documented limitation); run-time errors are compared by class, not by message or Go type")
+	rec.Assume("deferred compiled functions never call recover (documented limitation: recover() inside a compiled function deferred by interpreted code); run-time errors are compared by class, not by message or Go type")
 	rec.Assume("programs with a root call outside any recover do not use panic(nil): an escaping nil panic cannot be told from a normal return by recover() in the engine")
 	os.Exit(vlib.Main(m, rec))
 }
@@ -64,6 +65,11 @@ func ntFunc(p gobatch.Program, res gobatch.Result) string {
 			active++
 		case f[1] == `"!rd"`:
 			add("recover-one-call-deeper")
+		case f[1] == `"!rb"`:
+			if active > 0 {
+				// the function runs below a deferred call of a panicking function
+				add("helper-recover-in-function-body-while-panicking")
+			}
 		case f[1] == `"!dl"`:
 			loops[f[0]]++
 			if loops[f[0]] >= 2 {
